@@ -15,6 +15,11 @@ import (
 type Times struct {
 	joinLike
 	row1 Row
+	// get1 and get2 are set when none of the ReqUnique columns
+	// are from that source. It has an empty key i.e. at most one row,
+	// and it is not set up for Lookup (UniqueReq of no columns is NoneReq)
+	// so Lookup must Get its row instead.
+	get1, get2 bool
 	state
 }
 
@@ -95,6 +100,8 @@ func (t *Times) setApproach(req Require, approach any, tran QueryTran) {
 		t.source1, t.source2 = t.source2, t.source1
 	}
 	req1, req2 := reqsForTimes(t.source1, t.source2, req)
+	t.get1 = req.use == ReqUnique && req1.use == ReqNone
+	t.get2 = req.use == ReqUnique && req2.use == ReqNone
 	t.source1 = SetApproach(t.source1, req1, tran)
 	t.source2 = SetApproach(t.source2, req2, tran)
 	t.header = t.getHeader()
@@ -185,15 +192,24 @@ func (t *Times) Select(sels Sels) {
 func (t *Times) Lookup(th *Thread, sels Sels) Row {
 	t.nlooks++
 	sel1, sel2 := t.splitSelect(sels)
-	row1 := t.source1.Lookup(th, sel1)
+	row1 := lookupOrGet(t.source1, th, sel1, t.get1)
 	if row1 == nil {
 		return nil
 	}
-	row2 := t.source2.Lookup(th, sel2)
+	row2 := lookupOrGet(t.source2, th, sel2, t.get2)
 	if row2 == nil {
 		return nil
 	}
 	return JoinRows(row1, row2)
+}
+
+func lookupOrGet(src Query, th *Thread, sels Sels, get bool) Row {
+	if get {
+		src.Rewind()
+		defer src.Rewind()
+		return getNext1(src, th)
+	}
+	return src.Lookup(th, sels)
 }
 
 func (t *Times) Simple(th *Thread) []Row {
